@@ -102,6 +102,8 @@ pub struct TypeSchema {
     /// The wire format of this type is not fixed by the documentation (partial custom codecs):
     /// only format-independent checks run it (len == bytes written, bounded sinks, plain round trip).
     pub loose: bool,
+    /// Only `Encode` and `CborLen` are derived (nothing is decoded).
+    pub encode_only: bool,
 }
 
 /// Pre-generated strings and byte strings that borrowed fields point into.
